@@ -175,6 +175,10 @@ def run(rep: Report) -> None:
                   f"{ci.name} defines {bad}: elements would be keyed by value/name instead of identity",
                   key=f"eq|{ci.name}")
     rep.floor("element classes", n_cls, 10)
+    # turn rates given to the constructors reach the slot the node rule reads
+    from .. import ctor
+
+    ctor.check(rep, groups=("link", "vsl"))
 
 
 def _fn(where: str) -> str:
